@@ -862,36 +862,52 @@ Fixpoint pu_loop2 (s : lb) (maxrow snap_rows fpos : Z) (t : list titem) (order :
       end
   end.
 
+(* _keypress_page_up up to "if focus_widget (first in t) is off edge, remove it":
+   (snap_rows, t before that removal, snap_region_start) *)
+Definition pu_gather (s : lb) (maxrow : Z) (v : vis) : Z * list titem * Z :=
+  let row_offset := v_off_inset v in
+  let fpos := v_fpos v in
+  let frows := v_frows v in
+  let topmost_visible := row_offset in
+  let scroll_from_row :=
+    if negb (sel_at (items s) fpos) then topmost_visible
+    else match v_cursor v with
+         | Some y => - y
+         | None => if 0 <=? row_offset then 0 else topmost_visible
+         end in
+  let snap_rows := topmost_visible - scroll_from_row in
+  let row_offset := scroll_from_row + maxrow in
+  let '(t, row_offset) := pu_for (v_above v) row_offset [(row_offset, fpos, frows)] in
+  let '(t, srs) :=
+    pu_while (above_of (items s) (last_fill_pos (v_above v) fpos)) snap_rows row_offset (zlen t) t in
+  (* if we can't fill the top we need to adjust the row offsets *)
+  let t := match rev t with
+           | [] => t
+           | x :: _ => if 0 <? t_ro x then map (t_shift (- t_ro x)) t else t
+           end in
+  (snap_rows, t, srs).
+
+(* the candidate widgets 'page up' chooses from: t after the removal of an off-edge first entry *)
+Definition pu_candidates (s : lb) (maxrow : Z) (v : vis) : list titem :=
+  let '(_, t, _) := pu_gather s maxrow v in
+  match t with
+  | [] => []
+  | x0 :: tl => if maxrow <=? t_ro x0 then tl else t
+  end.
+
 (* ListBox._keypress_page_up *)
 Definition keypress_page_up (s : lb) (maxrow : Z) : result (lb * bool) :=
   match visible (items s) (focus s) (off s) (inum s) (iden s) maxrow true with
   | Err e => Err e
   | Ok None => Ok (s, true)
   | Ok (Some v) =>
-      let row_offset := v_off_inset v in
       let fpos := v_fpos v in
-      let frows := v_frows v in
-      let topmost_visible := row_offset in
-      let scroll_from_row :=
-        if negb (sel_at (items s) fpos) then topmost_visible
-        else match v_cursor v with
-             | Some y => - y
-             | None => if 0 <=? row_offset then 0 else topmost_visible
-             end in
-      let snap_rows := topmost_visible - scroll_from_row in
-      let row_offset := scroll_from_row + maxrow in
-      let '(t, row_offset) := pu_for (v_above v) row_offset [(row_offset, fpos, frows)] in
-      let '(t, srs) :=
-        pu_while (above_of (items s) (last_fill_pos (v_above v) fpos)) snap_rows row_offset (zlen t) t in
-      (* if we can't fill the top we need to adjust the row offsets *)
-      let t := match rev t with
-               | [] => t
-               | x :: _ => if 0 <? t_ro x then map (t_shift (- t_ro x)) t else t
-               end in
-      match t with
+      let '(snap_rows, t0, srs) := pu_gather s maxrow v in
+      match t0 with
       | [] => Err OtherError
       | x0 :: tl =>
-          let '(t, srs) := if maxrow <=? t_ro x0 then (tl, srs - 1) else (t, srs) in
+          let t := pu_candidates s maxrow v in
+          let srs := if maxrow <=? t_ro x0 then srs - 1 else srs in
           let order := search_order srs (zlen t) in
           match pu_loop1 maxrow snap_rows t order {| p_s := s; p_bad := []; p_cut := false; p_ro := t_ro x0 |} with
           | Err e => Err e
